@@ -24,6 +24,9 @@ import (
 
 type G struct {
 	idle    bool // parked at an Idle gate: only picked when nothing else is enabled
+	run     int  // consecutive picks of this goroutine
+	sites   []string
+	spin    bool // retry loop detected: deprioritised until another goroutine makes progress
 	ID      string
 	gid     int64
 	gate    chan struct{}
@@ -67,6 +70,8 @@ type Sched struct {
 	noBranch        bool
 	closed          map[uintptr]bool
 }
+
+const spinWindow = 24
 
 var active atomic.Pointer[Sched]
 
@@ -493,6 +498,28 @@ func Run(prefix []int, cfg Sched, body func()) *Sched {
 		if len(nonIdle) > 0 {
 			enabled = nonIdle
 		}
+		// spinners (retry-until-success loops, e.g. a non-blocking dispatch to a busy worker) are not chosen
+		// while anything else can run; if only spinners are enabled, time passes
+		nonSpin := enabled[:0:0]
+		for _, g := range enabled {
+			if !g.spin {
+				nonSpin = append(nonSpin, g)
+			}
+		}
+		if len(nonSpin) == 0 {
+			if !s.sleepUntilWake() {
+				s.Verdict = "livelock"
+				s.Detail = "only goroutines in retry loops are enabled and nothing else happens within the horizon\n" + s.describe()
+				return s
+			}
+			s.mu.Lock()
+			for _, g := range s.order {
+				g.spin, g.run, g.sites = false, 0, nil
+			}
+			s.mu.Unlock()
+			continue
+		}
+		enabled = nonSpin
 		// canonical order: the goroutine that ran last first (continuing it is not a preemption), then by id
 		sort.SliceStable(enabled, func(i, j int) bool {
 			if (enabled[i] == s.last) != (enabled[j] == s.last) {
@@ -529,6 +556,27 @@ func Run(prefix []int, cfg Sched, body func()) *Sched {
 		s.mu.Lock()
 		g.atGate = false
 		g.idle = false
+		if s.last == g {
+			g.run++
+			g.sites = append(g.sites, g.site)
+			if g.run >= spinWindow {
+				distinct := map[string]bool{}
+				for _, st := range g.sites[len(g.sites)-spinWindow:] {
+					distinct[st] = true
+				}
+				if len(distinct) <= 4 {
+					g.spin = true
+				}
+			}
+		} else {
+			// another goroutine makes progress: earlier spinners get a new chance
+			for _, o := range s.order {
+				o.run, o.sites = 0, nil
+				if o != g {
+					o.spin = false
+				}
+			}
+		}
 		s.last = g
 		s.mu.Unlock()
 		g.gate <- struct{}{}
@@ -595,6 +643,8 @@ func (s *Sched) describe() string {
 	sb.Write(buf[:n])
 	return sb.String()
 }
+
+func (s *Sched) Steps() int { return s.steps }
 
 // Panics returns the recovered panics of controlled goroutines.
 func (s *Sched) Panics() []string { return s.panics }
